@@ -10,7 +10,7 @@ META = {
             'computed by an independent scope model, programs with a model-detected error (unknown name, local used across a function/const barrier, redefinition) must be rejected; and '
             'consistently renaming all declared names must not change the compiled output; at file level, ANM scripts/sprites named like register or instruction aliases of the mapfile bind to the declared thing wherever used as a value (checked against the written file and by renaming), and old-ECL files use instruction aliases that exist in both of their languages (subs / timelines), each binding to its own language\'s opcode, an alias of the other language only being an error. distinct = hash(program text); non-trivial = >= 2 declarations sharing a name or >= 1 forward reference',
     'assumptions': ['not generated (undocumented): a local and a const of one name in the same block, a local named like a parameter in the function body block, use of a name in its own initialiser'],
-    'floors': {'file_collision_programs': 20, 'file_alias_collisions': 10, 'two_language_programs': 20, 'renamed_compiles_identical': 10, 'partitions_matched': 150, 'expected_errors_rejected': 40, 'renamings_compared': 40, 'shadowing_programs': 50},
+    'floors': {'enum_colour_programs': 30, 'enum_colour_after_padding': 5, 'redefined_alias_programs': 15, 'file_collision_programs': 20, 'file_alias_collisions': 10, 'two_language_programs': 20, 'renamed_compiles_identical': 10, 'partitions_matched': 150, 'expected_errors_rejected': 40, 'renamings_compared': 40, 'shadowing_programs': 50},
 }
 SIZES = {'quick': 1500, 'thorough': 40000}
 UNIQ_RE = re.compile(r'\b(' + '|'.join(S.VARPOOL + S.FUNCPOOL + S.ALIASES + S.INS_ALIASES) + r')_(\d+)\b')
@@ -170,6 +170,83 @@ def two_language_case(ctx, r):
         ctx.violation('scope:two-languages:wrong-binding', 'sub opcodes %s (expected %s), timeline opcodes %s (expected %s)' % (got_sub, want_sub, got_tl, want_tl), replay); return
     ctx.count('two_language_programs'); ctx.fp('twolang', text)
 
+def enum_colour_case(ctx, r):
+    """A const name that exists in two enums is resolved by the enum type ('colour') of the parameter it is passed to; parameters are matched
+    to arguments skipping padding."""
+    from .. import layout as L
+    game = r.pick(['th08', 'th12', 'th17'])
+    vals = {'FooEnum': {'OnlyFoo': 10, 'Name': 20, 'Both2': 21}, 'BarEnum': {'OnlyBar': 30, 'Name': 40, 'Both2': 41}}
+    mp = '!anmmap\n' + ''.join('!enum(name="%s")\n%s' % (en, ''.join('%d %s\n' % (v, k) for k, v in d.items())) for en, d in vals.items())
+    params = []
+    for _ in range(r.randint(1, 5)):
+        params.append(r.wpick([('S', 2), ('S(enum="FooEnum")', 3), ('S(enum="BarEnum")', 3), ('_', 2)]))
+    if all(p == '_' for p in params): params.append('S(enum="BarEnum")')
+    mp += '!ins_signatures\n900 %s\n' % ''.join(params)
+    args, want, bad = [], [], False
+    for p in params:
+        if p == '_': want.append(0); continue
+        colour = 'FooEnum' if 'Foo' in p else ('BarEnum' if 'Bar' in p else None)
+        k = r.wpick([('lit', 2), ('unique', 2), ('shared', 4), ('qualified', 2)])
+        if k == 'lit': v = r.randint(0, 9); args.append(str(v)); want.append(v)
+        elif k == 'unique':
+            en = colour or r.pick(['FooEnum', 'BarEnum'])          # (a unique name of the *other* enum only draws a warning; not generated)
+            nm = 'OnlyFoo' if en == 'FooEnum' else 'OnlyBar'; args.append(nm); want.append(vals[en][nm])
+        elif k == 'shared':
+            nm = r.pick(['Name', 'Both2']); args.append(nm)
+            if colour is None: bad = True; want.append(None)
+            else: want.append(vals[colour][nm])
+        else:
+            en = r.pick(['FooEnum', 'BarEnum']); nm = r.pick(['Name', 'Both2']); args.append('%s.%s' % (en, nm)); want.append(vals[en][nm])
+    text = 'entry { path: "a.png", has_data: false, img_width: 16, img_height: 16, img_format: 1, sprites: {} }\nscript s {\nins_900(%s);\n}\n' % ', '.join(args)
+    src = ctx.write('c10c.txt', text); out = os.path.join(ctx.dir, 'c10c.bin'); mpath = ctx.write('c10c.map', mp)
+    if os.path.exists(out): os.unlink(out)
+    c = ctx.cli({'tool': 'anm', 'cmd': 'compile', 'game': game, 'in': src, 'out': out, 'maps': [mpath]})
+    ctx.evaluations += 1
+    replay = {'game': game, 'text': text, 'mapfile': mp, 'expected': want}
+    if 'panic' in c or 'abort' in c: ctx.inconcl('compile crash (C04)'); return
+    if bad:
+        if c.get('ok'): ctx.violation('scope:enum-colour:accepts-ambiguous-name', 'a name defined in two enums was accepted in a parameter without an enum type', replay)
+        elif core.has_error_diag(c.get('diag', '')): ctx.count('expected_errors_rejected'); ctx.seen('error_classes', 'ambiguous-enum-const')
+        return
+    if not c.get('ok'):
+        ctx.violation('scope:enum-colour:rejects-valid:%s' % core.norm_msg(core.headline(c.get('diag', '')))[:60], c.get('diag', '')[:300], replay); return
+    ins = [i for i in L.parse_anm(ctx.read(out), game)[0]['scripts'][0]['instrs'] if i.opcode == 900]
+    got = [int.from_bytes(ins[0].blob[4 * k:4 * k + 4], 'little', signed=True) for k in range(len(params))] if ins else None
+    if got != want:
+        ctx.violation('scope:enum-colour:wrong-binding', 'signature %s, call ins_900(%s): stored %s, expected %s' % (''.join(params), ', '.join(args), got, want), replay); return
+    ctx.count('enum_colour_programs')
+    if '_' in params and any(a in ('Name', 'Both2') for a in args): ctx.count('enum_colour_after_padding')
+    ctx.fp('colour', text + mp)
+
+def redefined_alias_case(ctx, r):
+    """A register or instruction alias defined again by a later mapfile (or a later line) means the later target."""
+    from .. import layout as L
+    game = r.pick(['th08', 'th12', 'th17'])
+    regs = r.sample([10000, 10001, 10002, 10003], 2); ops = r.sample([900, 901, 902], 2)
+    sigs = '!ins_signatures\n900 S\n901 S\n902 S\n'
+    m1 = '!anmmap\n!gvar_names\n%d COUNTER\n!gvar_types\n%d $\n%d $\n!ins_names\n%d halt\n' % (regs[0], regs[0], regs[1], ops[0]) + sigs
+    m2 = '!anmmap\n!gvar_names\n%d COUNTER\n!ins_names\n%d halt\n' % (regs[1], ops[1])
+    same_file = r.chance(0.3)
+    if same_file:
+        maps = ['!anmmap\n!gvar_names\n%d COUNTER\n%d COUNTER\n!gvar_types\n%d $\n%d $\n!ins_names\n%d halt\n%d halt\n' % (regs[0], regs[1], regs[0], regs[1], ops[0], ops[1]) + sigs]
+    else: maps = [m1, m2]
+    text = 'entry { path: "a.png", has_data: false, img_width: 16, img_height: 16, img_format: 1, sprites: {} }\nscript s {\nhalt(COUNTER);\nhalt(7);\n}\n'
+    src = ctx.write('c10d.txt', text); out = os.path.join(ctx.dir, 'c10d.bin')
+    paths = [ctx.write('c10d_%d.map' % k, m) for k, m in enumerate(maps)]
+    if os.path.exists(out): os.unlink(out)
+    c = ctx.cli({'tool': 'anm', 'cmd': 'compile', 'game': game, 'in': src, 'out': out, 'maps': paths})
+    ctx.evaluations += 1
+    replay = {'game': game, 'text': text, 'mapfiles': maps}
+    if 'panic' in c or 'abort' in c: ctx.inconcl('compile crash (C04)'); return
+    if not c.get('ok'):
+        ctx.violation('scope:redefined-alias:rejects:%s' % core.norm_msg(core.headline(c.get('diag', '')))[:60], c.get('diag', '')[:300], replay); return
+    ins = L.parse_anm(ctx.read(out), game)[0]['scripts'][0]['instrs']
+    got = [(i.opcode, int.from_bytes(i.blob[:4], 'little', signed=True), i.mask & 1) for i in ins[:2]]
+    want = [(ops[1], regs[1], 1), (ops[1], 7, 0)]
+    if got != want:
+        ctx.violation('scope:redefined-alias:wrong-binding', 'compiled to (opcode, value, is-register) %s; the later definitions give %s' % (got, want), replay); return
+    ctx.count('redefined_alias_programs'); ctx.fp('redef', repr(maps))
+
 def run_shard(ctx):
     r = ctx.rng
     n = SIZES[ctx.tier] // ctx.nshards + 1
@@ -178,6 +255,8 @@ def run_shard(ctx):
         k = r.random()
         if k < 0.10: file_collision_case(ctx, r); done += 1; continue
         if k < 0.16: two_language_case(ctx, r); done += 1; continue
+        if k < 0.24: enum_colour_case(ctx, r); done += 1; continue
+        if k < 0.28: redefined_alias_case(ctx, r); done += 1; continue
         if r.chance(0.15):
             compile_rename_case(ctx, r); done += 1; continue
         want_error = r.chance(0.3)
